@@ -284,11 +284,13 @@ func c17readonly(p *Prog, r *Report) {
 	r.Check(len(wbad) == 0, rule, "processSyncRequest:reach-writes-no-state", p.pos(fn.Pos()), fnName(fn), "no store to hashgraph/core/store/cache fields in the closure", "state written while serving a sync request: "+strings.Join(wbad, "; "))
 }
 
-var fieldOwnerCache map[*types.Var]string
+var fieldOwnerCaches = map[*Prog]map[*types.Var]string{}
 
 func fieldOwner(p *Prog, fv *types.Var) string {
+	fieldOwnerCache := fieldOwnerCaches[p]
 	if fieldOwnerCache == nil {
 		fieldOwnerCache = map[*types.Var]string{}
+		fieldOwnerCaches[p] = fieldOwnerCache
 		for _, pk := range p.Pkgs {
 			sc := pk.Types.Scope()
 			for _, n := range sc.Names() {
